@@ -401,9 +401,9 @@ def native_vb(cal, Cm, V, cellmass, ckeys=None):
     return me, cal.CijVolumeBaseInterface(me)
 
 
-def check_fields(cal, Cm, V, cellmass, rtol=1e-7):
+def check_fields(cal, Cm, V, cellmass, rtol=1e-7, built=None):
     """-> None or a failure description: compliances inverse, tensor definitions, ordering, velocities"""
-    me, vb = native_vb(cal, Cm, V, cellmass)
+    me, vb = built or native_vb(cal, Cm, V, cellmass)
     nt, ntv = Cm.shape[:2]
     Sm = numpy.zeros_like(Cm)
     for k, a in me._compliances.items():
@@ -446,6 +446,41 @@ def check_fields(cal, Cm, V, cellmass, rtol=1e-7):
     vs, vp = numpy.sqrt(G_pa / rho[None, :]) / 1e3, numpy.sqrt((K_pa + 4 * G_pa / 3) / rho[None, :]) / 1e3
     if not numpy.allclose(vb.secondary_velocities, vs, rtol=1e-6) or not numpy.allclose(vb.primary_velocities, vp, rtol=1e-6):
         return "velocities differ from sqrt(G/rho), sqrt((K+4G/3)/rho) in km/s"
+    return None
+
+
+def history_fields(cal, rnd, Cm, V, cm, rt):
+    """histories on the real objects: a second calculator built while the first is alive; averages / velocities read in another order; the volume-base results
+    written (every VRH / velocity keyword through the real ResultsWriter, files discarded) and read again afterwards"""
+    rw = importlib.import_module("cij.io.output.results_writer")
+    first = native_vb(cal, Cm, V, cm)
+    Cm2 = numpy.array([[random_spd(rnd, 50.0) for _ in range(Cm.shape[1])] for _ in range(Cm.shape[0])])
+    second = native_vb(cal, Cm2, V * 0.9, cm * 1.5)
+    _ = second[1].primary_velocities, second[1].bulk_modulus_reuss
+    msg = check_fields(cal, Cm, V, cm, rtol=rt, built=first)
+    if msg:
+        return "after a second calculator was built in the same process, the FIRST one reports: " + msg
+    vb = first[1]
+    vb.write_table = lambda fname, value: None
+    before = {n: numpy.array(getattr(vb, n), copy=True) for n in ("bulk_modulus_voigt", "bulk_modulus_reuss", "shear_modulus_voigt", "primary_velocities")}
+    try:
+        w = rw.ResultsWriter(vb)
+        for kw in ("bm_V", "bm_R", "bm_VRH", "G_V", "G_R", "G_VRH", "vs", "vp", {"keyword": "bm_V", "unit": "kbar"}):
+            try:
+                w.write(kw)
+            except KeyError:
+                pass
+    except Exception as e:
+        return "writing the volume-base averages raises %r" % (e,)
+    for n, a in before.items():
+        if not numpy.array_equal(numpy.asarray(getattr(vb, n)), a):
+            return "%s reads differently after the results were written (factor %.6g)" % (n, float(numpy.ravel(numpy.asarray(getattr(vb, n)))[0] / numpy.ravel(a)[0]))
+    msg = check_fields(cal, Cm, V, cm, rtol=rt, built=first)
+    if msg:
+        return "after the volume-base results were written: " + msg
+    msg = check_fields(cal, Cm2, V * 0.9, cm * 1.5, rtol=max(rt, 1e-7), built=second)
+    if msg:
+        return "second calculator of the process: " + msg
     return None
 
 
@@ -493,14 +528,18 @@ def bounded_spd(s, cal):
         cm = float(rnd.uniform(20, 400))
         distinct += 1
         try:
-            msg = check_fields(cal, Cm, V, cm, rtol=max(1e-7, cond * 1e-13))
+            rt = max(1e-7, cond * 1e-13)
+            msg = check_fields(cal, Cm, V, cm, rtol=rt)
+            if msg is None and i % 4 == 0:
+                msg = history_fields(cal, rnd, Cm, V, cm, rt)
         except Exception as e:
             msg = "raises %r" % (e,)
         if msg:
             fails.append({"witness_id": "spd:%d" % i, "input": {"condition_number": cond, "stiffness": Cm.tolist(), "V": V.tolist(), "cellmass": cm},
                           "observed": msg, "expected": "S = C^-1, tensor definitions, Reuss<=Hill<=Voigt, SI velocities"})
             break
-    s.bounded_standin("C07.spd_fields(real numpy)", "%d random SPD stiffness fields (2x3 grid points each), condition numbers 2..3e7, seed %d" % (n, s.seed),
+    s.bounded_standin("C07.spd_fields(real numpy)", "%d random SPD stiffness fields (2x3 grid points each), condition numbers 2..3e7, every fourth one followed by histories (second calculator alive, "
+                      "results written through the real writer and read again), seed %d" % (n, s.seed),
                       n, distinct, fails, [CAL + "Calculator._calculate_compliances", VB + "*"])
 
 
